@@ -345,7 +345,29 @@ Workload gen(uint64_t seed, bool thorough) {
                 }
                 ph.tasks.push_back(ops);
             }
+            // sometimes the first readers after the inserts are concurrent ones
+            bool readers_next = !used.empty() && r.chance(1, 3);
+            if (readers_next) ph.kind = 4;
             w.phases.push_back(ph);
+            if (readers_next) {
+                Phase q;
+                q.kind = 2;
+                int TQ = (int)r.range(2, 6);
+                for (int t = 0; t < TQ; t++) {
+                    std::vector<Op> ops;
+                    int nq = (int)r.range(1, thorough ? 20 : 6);
+                    for (int i = 0; i < nq; i++) {
+                        Op o;
+                        o.code = (int)r.range(OP_CONTAINS, OP_ITERATE);
+                        o.a = r.chance(3, 4) ? used[r.below(used.size())] : draw(r, kind, D);
+                        o.b = r.chance(3, 4) ? used[r.below(used.size())] : draw(r, kind, D);
+                        o.c = rel;
+                        ops.push_back(o);
+                    }
+                    q.tasks.push_back(ops);
+                }
+                w.phases.push_back(q);
+            }
         } else if (x < 85) {
             Phase ph;
             ph.kind = 0;
@@ -405,7 +427,7 @@ void execute(const Workload& wl, Result& res) {
     W = &world;
     Rng prng((uint64_t)wl.param("probe_seed", 1));
     for (const Phase& ph : wl.phases) {
-        if (ph.kind == 1) {
+        if (ph.kind == 1 || ph.kind == 4) {
             sim::parallel((int)ph.tasks.size(), [&](int t) { run_inserts(t, ph.tasks[t]); });
             for (auto& t : ph.tasks)
                 for (auto& o : t) world.model[o.c & 1].unite(o.a, o.b);
@@ -415,6 +437,9 @@ void execute(const Workload& wl, Result& res) {
             for (auto& t : ph.tasks) run_sequential(t);
         }
         if (!res.ok) break;
+        // kind 4: no quiescent query block after these inserts, so that the concurrent readers of the next phase are the first
+        // to look at the relation (the iteration cache is still stale when they arrive)
+        if (ph.kind == 4) continue;
         // probes: touched elements (all of them when few) plus untouched values
         for (int which = 0; which < 2; which++) {
             std::vector<long> probes;
